@@ -69,6 +69,14 @@ def context_copy_rule(ck, ix):
             base = _sh.unalias(base, fc.node)       # `table = copy.field; table[k] = ...` writes the copy's field
             if isinstance(base, ast.Attribute) and isinstance(base.value, ast.Name) and base.value.id == copyname:
                 assigned.setdefault(base.attr, []).append(a)
+    # a field of the copy may also be filled in place: `copy.field.update(...)`, `.extend(...)`, ... (receiver possibly
+    # through a local alias) - it counts like `copy.field[k] = v`
+    filled = {}
+    for c in walk_local(fc.node):
+        if isinstance(c, ast.Call) and isinstance(c.func, ast.Attribute) and c.func.attr in ("update", "extend", "append", "add", "setdefault", "insert") and (c.args or c.keywords):
+            base = _sh.unalias(c.func.value, fc.node)
+            if isinstance(base, ast.Attribute) and isinstance(base.value, ast.Name) and base.value.id == copyname:
+                filled.setdefault(base.attr, []).append(c)
     for F in fields:
         if F in COPY_EXEMPT:
             ck.ok("G-EXH", f"Context.from_context|field|{F}", fc.loc(), "exempt: " + COPY_EXEMPT[F])
@@ -84,6 +92,11 @@ def context_copy_rule(ck, ix):
                 roots = defs.roots(a.value)
                 if f"context.{F}" in roots or (isinstance(a.targets[0], ast.Subscript) and isinstance(a.value, ast.Name) and a.value.id == copyname):
                     ok, how = True, f"`{norm(a)}`"
+        for c in filled.get(F, []) if not ok else []:
+            given = list(c.args) + [k.value for k in c.keywords]
+            roots = set().union(*(defs.roots(x) for x in given))
+            if f"context.{F}" in roots or any(isinstance(n_, ast.Name) and n_.id == copyname for x in given for n_ in ast.walk(x)):
+                ok, how = True, f"`{norm(c)}`"
         ck.check(ok, "G-EXH", f"Context.from_context|field|{F}", fc.loc(), f"{F} carried over by {how}",
                  f"the parameterised copy made by Context.from_context does not receive `{F}` from the original: activating the context with keyword parameters silently loses its {F}")
 
@@ -285,6 +298,12 @@ def run(ck, ix, tier):
         for r_ in [x for x in ast.walk(lp) if isinstance(x, ast.Return) and x.value is not None]:
             b = _m("_C.defaults", r_.value, fi.node)
             newest = newest or (b is not None and b["_C"] == lp.target.id and not _sh.facts_at(r_, lp) and memo.enclosing(r_, (ast.For, ast.While), lp) is None)
+    # ... or the first element of that iteration taken with next(iter(self.values())[, default]) answers
+    dd = defs_of(fi)
+    for r_ in [x for x in walk_local(fi.node) if isinstance(x, ast.Return) and x.value is not None]:
+        for alt in memo.alternatives(r_.value):
+            v_ = dd.inline(alt)
+            newest = newest or _sh.match("next(iter(self.values())).defaults", v_) is not None or _sh.match("next(iter(self.values()), _D).defaults", v_) is not None
     ck.check(newest, "G-PROV", "ContextChain.defaults|newest-context-defaults", fi.loc(),
              "enclosing defaults are those of the most recently enabled context", "ContextChain.defaults no longer returns the first (newest) context's defaults")
 
@@ -293,10 +312,17 @@ def run(ck, ix, tier):
     ck.analysed(fi)
     dcalls = [a for a in walk_local(fi.node) if isinstance(a, ast.Assign) and norm(a.targets[0]) == "kwargs"]
     ck.floor("G-PROV", len(dcalls), 1, "merge of enclosing defaults into kwargs")
-    for a in dcalls:
-        v = a.value
+    # every value kwargs may be given (the branches of a conditional expression; kwargs itself = left as it is)
+    merges = [(a, v) for a in dcalls for v in memo.alternatives(a.value) if norm(v) != "kwargs"]
+    ck.floor("G-PROV", len(merges), 1, "merge of enclosing defaults into kwargs")
+    for a, v in merges:
+        un = lambda e: _sh.unalias(e, fi.node)
         if isinstance(v, ast.Call) and v.args:
-            v = ast.Call(func=v.func, args=[_sh.unalias(v.args[0], fi.node)] + list(v.args[1:]), keywords=v.keywords)
+            v = ast.Call(func=v.func, args=[un(v.args[0])] + list(v.args[1:]), keywords=v.keywords)
+        elif isinstance(v, ast.Dict):
+            v = ast.Dict(keys=v.keys, values=[un(x) for x in v.values])
+        elif isinstance(v, ast.BinOp):
+            v = ast.BinOp(left=un(v.left), op=v.op, right=v.right)
         ok = (isinstance(v, ast.Call) and call_name(v) == "dict" and len(v.args) == 1 and norm(v.args[0]) == "self._active_ctx.defaults"
               and any(k.arg is None and norm(k.value) == "kwargs" for k in v.keywords)) or \
              (isinstance(v, ast.Dict) and [norm(x) for x in v.values] == ["self._active_ctx.defaults", "kwargs"] and all(k is None for k in v.keys)) or \
